@@ -165,7 +165,16 @@ func (c *pxContext) Reflector() px.Reflector {
 	return types.NewReflector(c)
 }
 
+// resolveLock makes resolveResolvables one step for everybody else. What a goroutine has picked up from the lists
+// of declarations is bound and resolved in several steps. A Do or RootContext of another goroutine that starts
+// meanwhile finds those lists empty - the types that its own goroutine declared just before may be among the ones
+// that are still being worked on - and must not go on to its function before that work is complete.
+var resolveLock sync.Mutex
+
 func resolveResolvables(c px.Context) {
+	resolveLock.Lock()
+	defer resolveLock.Unlock()
+
 	l := c.Loader().(px.DefiningLoader)
 	ts := types.PopDeclaredTypes()
 	for _, rt := range ts {
